@@ -28,16 +28,31 @@ for k in (1, 2, 3):
     meta = json.load(open(mf)) if os.path.exists(mf) else {}
     rel = "--release" if meta.get("release_only") else ""
     clean()
-    os.makedirs(WT + "/tests", exist_ok=True)
-    shutil.copy(df, WT + "/tests/demo_seed.rs")
-    r1 = sh("cargo test --offline %s --test demo_seed 2>&1 | grep -E '^test result|panicked|error' | head -5" % rel, cwd=WT, env=env)
-    demo_clean_ok = "test result: ok" in r1.stdout and "FAILED" not in r1.stdout
+    wiring = meta.get("demo_wiring")
+    def wire():
+        if wiring:
+            # unit-test demo: a #[cfg(test)] module next to the private items it needs
+            host = "src/pairings.rs" if "src/pairings.rs" in wiring else "src/lib.rs"
+            shutil.copy(df, WT + "/src/demo_%d.rs" % k)
+            with open(os.path.join(WT, host), "a") as fh:
+                fh.write('\n#[cfg(test)]\n#[path = "demo_%d.rs"]\nmod demo_%d;\n' % (k, k))
+            return "cargo test --offline %s --lib demo_%d 2>&1 | grep -E '^test result|panicked|error' | head -5" % (rel, k)
+        os.makedirs(WT + "/tests", exist_ok=True)
+        shutil.copy(df, WT + "/tests/demo_seed.rs")
+        return "cargo test --offline %s --test demo_seed 2>&1 | grep -E '^test result|panicked|error' | head -5" % rel
+    cmd = wire()
+    r1 = sh(cmd, cwd=WT, env=env)
+    demo_clean_ok = "test result: ok" in r1.stdout and "FAILED" not in r1.stdout and " 0 passed" not in r1.stdout
+    clean()
     a = sh("git apply %s" % pf, cwd=WT)
     if a.returncode != 0:
         results.append({"k": k, "error": "patch does not apply: " + a.stderr[:200]}); continue
-    r2 = sh("cargo test --offline %s --test demo_seed 2>&1 | grep -E '^test result|panicked|error' | head -5" % rel, cwd=WT, env=env)
+    cmd = wire()
+    r2 = sh(cmd, cwd=WT, env=env)
     demo_fails = "FAILED" in r2.stdout or "panicked" in r2.stdout or "error" in r2.stdout
-    os.remove(WT + "/tests/demo_seed.rs")
+    # remove the demo again, keep the patch
+    clean()
+    sh("git apply %s" % pf, cwd=WT)
     r3 = sh("cargo test --offline 2>&1 | grep -E '^test result|FAILED|error(\\[|:)' | head -8", cwd=WT, env=env)
     suite_ok = r3.stdout.count("test result: ok") >= 3 and "FAILED" not in r3.stdout and "error" not in r3.stdout
     fired = {}
